@@ -81,9 +81,15 @@ theorem lingo_tree : ∀ (s : Stmt), FragX s = true → ∀ (n : Node), EmbT s n
             Lscr.Name.asStr, Lscr.Name.str, mS, mE, List.append_assoc]
       | _ => simp [FragX] at hf
     | _ => simp [FragX] at hf
-  | .put .., hf, _, _, _ => by simp [FragX] at hf
-  | .delete _, hf, _, _, _ => by simp [FragX] at hf
-  | .hilite _, hf, _, _, _ => by simp [FragX] at hf
+  | .put m v lv, hf, n, h, ind => by
+    simp only [FragX] at hf
+    exact lingo_stmt (.put m v lv) hf n h ind
+  | .delete t, hf, n, h, ind => by
+    simp only [FragX] at hf
+    exact lingo_stmt (.delete t) hf n h ind
+  | .hilite t, hf, n, h, ind => by
+    simp only [FragX] at hf
+    exact lingo_stmt (.hilite t) hf n h ind
   | .mcall .., hf, _, _, _ => by simp [FragX] at hf
   | .tell .., hf, _, _, _ => by simp [FragX] at hf
   | .repeatIn .., hf, _, _, _ => by simp [FragX] at hf
